@@ -62,6 +62,29 @@ func constInt(m *core.Model, e ast.Expr) (int64, bool) {
 	return 0, false
 }
 
+type litElem struct {
+	key string
+	val ast.Expr
+}
+
+// structLitElems returns the (field key, value) pairs of a struct literal, keyed or positional.
+func structLitElems(m *core.Model, cl *ast.CompositeLit) []litElem {
+	var out []litElem
+	t := m.Info.TypeOf(cl)
+	if t == nil {
+		return nil
+	}
+	st, _ := t.Underlying().(*types.Struct)
+	for i, e := range cl.Elts {
+		if kv, ok := e.(*ast.KeyValueExpr); ok {
+			out = append(out, litElem{litFieldKey(m, kv), kv.Value})
+		} else if st != nil && i < st.NumFields() {
+			out = append(out, litElem{m.FieldKey(st.Field(i).Origin()), e})
+		}
+	}
+	return out
+}
+
 // binaryOps extracts the codec tuples of f.
 func binaryOps(m *core.Model, f *core.Func) ([]codecTuple, string) {
 	var out []codecTuple
@@ -153,6 +176,22 @@ func binaryOps(m *core.Model, f *core.Func) ([]codecTuple, string) {
 					if i < len(y.Lhs) {
 						lf = fieldKeyOf(m, y.Lhs[i])
 					}
+					// a whole-value store (*e = Entity{id: .., gen: ..}, possibly through a constructor helper that
+					// merely names the literal): each element is the store of that field
+					if lf == "" {
+						ir := m.Inline(r)
+						if call, ok := ast.Unparen(ir).(*ast.CallExpr); ok {
+							if x := m.ExpandCall(call); x != nil {
+								ir = x
+							}
+						}
+						if cl, ok := ast.Unparen(ir).(*ast.CompositeLit); ok && core.NamedName(m.Info.TypeOf(cl)) == "Entity" {
+							for _, fv := range structLitElems(m, cl) {
+								visit(fv.val, fv.key)
+							}
+							continue
+						}
+					}
 					visit(r, lf)
 				}
 				return false
@@ -212,6 +251,28 @@ func c17r1(c *core.Ctx) {
 	for i, f := range append(append([]*core.Func{}, writers...), readers...) {
 		ts, fail := binaryOps(m, f)
 		subject := f.Name
+		// a writer that hands the work to another writer of the same value has that writer's layout
+		if len(ts) == 0 && fail == "" {
+			for _, w := range writers {
+				if w == f {
+					continue
+				}
+				delegates := false
+				core.InspectNoLits(f.Body, func(n ast.Node) bool {
+					if rs, ok := n.(*ast.ReturnStmt); ok && len(rs.Results) == 1 {
+						if call, ok := ast.Unparen(rs.Results[0]).(*ast.CallExpr); ok {
+							if rv, ok := callTo(m, call, w); ok && rv != nil && f.Sig.Recv() != nil && identOf(rv) != nil && m.Info.ObjectOf(identOf(rv)) == types.Object(f.Sig.Recv()) {
+								delegates = true
+							}
+						}
+					}
+					return true
+				})
+				if delegates {
+					ts, fail = binaryOps(m, w)
+				}
+			}
+		}
 		if fail != "" {
 			c.Violation("C17/R1", subject, c.At(f.Pos()), f.Name+": "+fail)
 			continue
@@ -268,34 +329,55 @@ func c17r1(c *core.Ctx) {
 	}
 	// positions: writer literal elements; reader assignments e.f = conv(arr[k])
 	wpos := map[string]int{}
-	core.InspectNoLits(jsonW.Body, func(n ast.Node) bool {
-		if cl, ok := n.(*ast.CompositeLit); ok {
-			if _, isArr := m.Info.TypeOf(cl).Underlying().(*types.Array); isArr {
-				for i, e := range cl.Elts {
-					if k := entityFieldIn(m, e); k != "" {
-						wpos[k] = i
-					}
+	arrayLit := func(cl *ast.CompositeLit) {
+		if _, isArr := m.Info.TypeOf(cl).Underlying().(*types.Array); isArr {
+			for i, e := range cl.Elts {
+				if k := entityFieldIn(m, e); k != "" {
+					wpos[k] = i
 				}
 			}
 		}
+	}
+	core.InspectNoLits(jsonW.Body, func(n ast.Node) bool {
+		if cl, ok := n.(*ast.CompositeLit); ok {
+			arrayLit(cl)
+		}
 		return true
 	})
+	if len(wpos) == 0 {
+		// the array may be built by a helper that merely names the literal
+		if cl, ok := ast.Unparen(m.Inline(wc.Args[0])).(*ast.CompositeLit); ok {
+			arrayLit(cl)
+		}
+	}
 	rpos := map[string]int{}
+	posIn := func(k string, e ast.Expr) {
+		ast.Inspect(e, func(x ast.Node) bool {
+			if ix, ok := x.(*ast.IndexExpr); ok {
+				if v, ok := constInt(m, ix.Index); ok {
+					rpos[k] = int(v)
+				}
+			}
+			return true
+		})
+	}
 	core.InspectNoLits(jsonR.Body, func(n ast.Node) bool {
 		if as, ok := n.(*ast.AssignStmt); ok {
 			for i, l := range as.Lhs {
-				k := fieldKeyOf(m, l)
-				if !strings.HasPrefix(k, "Entity.") || i >= len(as.Rhs) {
+				if i >= len(as.Rhs) {
 					continue
 				}
-				ast.Inspect(as.Rhs[i], func(x ast.Node) bool {
-					if ix, ok := x.(*ast.IndexExpr); ok {
-						if v, ok := constInt(m, ix.Index); ok {
-							rpos[k] = int(v)
-						}
+				k := fieldKeyOf(m, l)
+				if strings.HasPrefix(k, "Entity.") {
+					posIn(k, as.Rhs[i])
+					continue
+				}
+				// whole-value store of a literal (or of a helper that names one)
+				if cl, ok := ast.Unparen(m.Inline(as.Rhs[i])).(*ast.CompositeLit); ok && core.NamedName(m.Info.TypeOf(cl)) == "Entity" {
+					for _, fv := range structLitElems(m, cl) {
+						posIn(fv.key, fv.val)
 					}
-					return true
-				})
+				}
 			}
 		}
 		return true
@@ -419,15 +501,20 @@ func c17r3(c *core.Ctx) {
 			written[k[strings.LastIndexByte(k, '.')+1:]] = v
 		}
 	}
+	// the load may be split into helpers: everything below looks at the load function and the unexported functions it
+	// calls (two levels)
+	scope := withCallees(m, load, 2)
 	read := map[string]bool{}
-	core.InspectNoLits(load.Body, func(n ast.Node) bool {
-		if sel, ok := n.(*ast.SelectorExpr); ok {
-			if k := fieldKeyOf(m, sel); strings.HasPrefix(k, "EntityDump.") {
-				read[strings.TrimPrefix(k, "EntityDump.")] = true
+	for _, g := range scope {
+		core.InspectNoLits(g.Body, func(n ast.Node) bool {
+			if sel, ok := n.(*ast.SelectorExpr); ok {
+				if k := fieldKeyOf(m, sel); strings.HasPrefix(k, "EntityDump.") {
+					read[strings.TrimPrefix(k, "EntityDump.")] = true
+				}
 			}
-		}
-		return true
-	})
+			return true
+		})
+	}
 	for i := 0; i < st.NumFields(); i++ {
 		name := st.Field(i).Name()
 		subject := "EntityDump." + name
@@ -453,25 +540,30 @@ func c17r3(c *core.Ctx) {
 	poolT := m.Prog.LookupType("entityPool")
 	pst := poolT.Underlying().(*types.Struct)
 	assigned := map[string]ast.Expr{}
-	core.InspectNoLits(load.Body, func(n ast.Node) bool {
-		switch x := n.(type) {
-		case *ast.CompositeLit:
-			if core.NamedName(m.Info.TypeOf(x)) == "entityPool" {
-				for _, e := range x.Elts {
-					if kv, ok := e.(*ast.KeyValueExpr); ok {
-						assigned[litFieldKey(m, kv)] = kv.Value
+	assignedIn := map[string]*core.Func{}
+	for _, g := range scope {
+		if g.Recv == "entityPool" {
+			continue // the pool's own methods maintain the pool; restoring it is the load's business
+		}
+		for _, cn := range constructionsOf(m, g) {
+			if cn.typ != "entityPool" {
+				continue
+			}
+			for k, v := range cn.fields {
+				assigned[k], assignedIn[k] = v, g
+			}
+		}
+		core.InspectNoLits(g.Body, func(n ast.Node) bool {
+			if x, ok := n.(*ast.AssignStmt); ok {
+				for i, l := range x.Lhs {
+					if k := fieldKeyOf(m, l); strings.HasPrefix(k, "entityPool.") && i < len(x.Rhs) {
+						assigned[k], assignedIn[k] = x.Rhs[i], g
 					}
 				}
 			}
-		case *ast.AssignStmt:
-			for i, l := range x.Lhs {
-				if k := fieldKeyOf(m, l); strings.HasPrefix(k, "entityPool.") && i < len(x.Rhs) {
-					assigned[k] = x.Rhs[i]
-				}
-			}
-		}
-		return true
-	})
+			return true
+		})
+	}
 	for i := 0; i < pst.NumFields(); i++ {
 		key := m.FieldKey(pst.Field(i).Origin())
 		name := strings.TrimPrefix(key, "entityPool.")
@@ -483,17 +575,42 @@ func c17r3(c *core.Ctx) {
 		}
 		if name == "entities" {
 			// must be a fresh copy of the dumped slice
-			p := m.AccessPath(load, v)
-			fresh := p.Kind == core.RootFresh
-			if id, isID := ast.Unparen(v).(*ast.Ident); isID {
-				if vv, okv := m.Info.ObjectOf(id).(*types.Var); okv {
-					for _, d := range localDefsOf(m, load, vv) {
-						if call, isC := ast.Unparen(d).(*ast.CallExpr); isC && m.IsBuiltin(call, "make") {
-							fresh = true
+			var freshIn func(g *core.Func, e ast.Expr, depth int) bool
+			freshIn = func(g *core.Func, e ast.Expr, depth int) bool {
+				if depth > 3 {
+					return false
+				}
+				if m.AccessPath(g, e).Kind == core.RootFresh {
+					return true
+				}
+				id, isID := ast.Unparen(e).(*ast.Ident)
+				if !isID {
+					return false
+				}
+				vv, okv := m.Info.ObjectOf(id).(*types.Var)
+				if !okv {
+					return false
+				}
+				if _, isP := paramIndexOf(g, vv); isP {
+					acts := actualsOf(m, g, vv)
+					if len(acts) == 0 {
+						return false
+					}
+					for _, a := range acts {
+						if !freshIn(a.caller, a.expr, depth+1) {
+							return false
 						}
 					}
+					return true
 				}
+				for _, d := range localDefsOf(m, g, vv) {
+					if call, isC := ast.Unparen(d).(*ast.CallExpr); isC && m.IsBuiltin(call, "make") {
+						return true
+					}
+				}
+				return false
 			}
+			fresh := freshIn(assignedIn[key], v, 0)
 			if !fresh {
 				c.Violation("C17/R3", subject, c.At(v.Pos()), fmt.Sprintf("%s sets the pool buffer to %s, which is not a fresh copy of the dumped entities", load.Name, m.ExprString(v)))
 				continue
@@ -505,12 +622,28 @@ func c17r3(c *core.Ctx) {
 	// entities) would leave the free list and the generations of the dump unrestored
 	{
 		nodes := map[string][]ast.Node{}
+		topOf := map[ast.Node]ast.Node{} // call node -> its statement
+		want := func(k string) bool {
+			return strings.HasPrefix(k, "entityPool.") || k == "storage.entityPool" || k == "storage.entities" || k == "storage.isTarget"
+		}
 		core.InspectNoLits(load.Body, func(n ast.Node) bool {
 			switch x := n.(type) {
 			case *ast.AssignStmt:
 				for _, l := range x.Lhs {
-					if k := fieldKeyOf(m, l); strings.HasPrefix(k, "entityPool.") || k == "storage.entityPool" || k == "storage.entities" || k == "storage.isTarget" {
+					if k := fieldKeyOf(m, l); want(k) {
 						nodes[k] = append(nodes[k], x)
+					}
+				}
+			case *ast.ExprStmt:
+				// a helper that performs the stores: the call statement stands for them
+				if call, ok := x.X.(*ast.CallExpr); ok {
+					if kk, cal, _ := m.Callee(call); kk == core.CallStatic && cal != nil && cal.Body != nil && cal.Recv != "entityPool" && cal.Recv != "table" {
+						for _, st := range c.Eff.StoresAt(load, call) {
+							if k := st.Path.Last(); want(k) && st.Kind == core.StoreAssign {
+								nodes[k] = append(nodes[k], call)
+								topOf[call] = x
+							}
+						}
 					}
 				}
 			}
@@ -533,7 +666,7 @@ func c17r3(c *core.Ctx) {
 		for k, ns := range nodes {
 			uncond := false
 			for _, n := range ns {
-				if top[n] {
+				if top[n] || (topOf[n] != nil && top[topOf[n]]) {
 					uncond = true
 				}
 			}
@@ -548,21 +681,23 @@ func c17r3(c *core.Ctx) {
 	// index and flag slices re-created with the dumped length
 	for _, key := range []string{"storage.entities", "storage.isTarget"} {
 		okLen := false
-		core.InspectNoLits(load.Body, func(n ast.Node) bool {
-			if as, ok := n.(*ast.AssignStmt); ok {
-				for i, l := range as.Lhs {
-					if fieldKeyOf(m, l) == key && i < len(as.Rhs) {
-						if call, ok := ast.Unparen(as.Rhs[i]).(*ast.CallExpr); ok && m.IsBuiltin(call, "make") && len(call.Args) >= 2 {
-							// the length derives from len(data.Entities)
-							if derivesFromDumpLen(m, load, call.Args[1], 0) {
-								okLen = true
+		for _, g := range scope {
+			core.InspectNoLits(g.Body, func(n ast.Node) bool {
+				if as, ok := n.(*ast.AssignStmt); ok {
+					for i, l := range as.Lhs {
+						if fieldKeyOf(m, l) == key && i < len(as.Rhs) {
+							if call, ok := ast.Unparen(as.Rhs[i]).(*ast.CallExpr); ok && m.IsBuiltin(call, "make") && len(call.Args) >= 2 {
+								// the length derives from len(data.Entities)
+								if derivesFromDumpLen(m, g, call.Args[1], 0) {
+									okLen = true
+								}
 							}
 						}
 					}
 				}
-			}
-			return true
-		})
+				return true
+			})
+		}
 		subject := load.Name + ": " + key
 		if okLen {
 			c.OK("C17/R3", subject, c.At(load.Pos()), "re-created with the length of the dumped pool")
@@ -595,9 +730,14 @@ func c17r3(c *core.Ctx) {
 	// position-based: the emptiness guard is a top-level if with panic before the first store
 	firstStore := token.NoPos
 	core.InspectNoLits(load.Body, func(n ast.Node) bool {
-		if as, ok := n.(*ast.AssignStmt); ok && len(m.DirectStores(load, as)) > 0 {
-			if firstStore == token.NoPos || as.Pos() < firstStore {
-				firstStore = as.Pos()
+		switch x := n.(type) {
+		case *ast.AssignStmt:
+			if len(m.DirectStores(load, x)) > 0 && (firstStore == token.NoPos || x.Pos() < firstStore) {
+				firstStore = x.Pos()
+			}
+		case *ast.CallExpr:
+			if len(c.Eff.StoresAt(load, x)) > 0 && (firstStore == token.NoPos || x.Pos() < firstStore) {
+				firstStore = x.Pos()
 			}
 		}
 		return true
